@@ -334,6 +334,34 @@ V("s-impacts-negative-accepted", "silent", S_PROPS, PO, "        if any(x < 0 fo
   note="C20 is about round trips; accepting more vectors does not break one")
 V("f-impacts-zero-rejected", "fire", S_PROPS, PO, "        if any(x < 0 for x in impacts):\n", "        if any(x <= 0 for x in impacts):\n")
 
+# ---------------------------------------------------------------------------------- lexicographic inference (z3 back-end)
+LZ = "inference/lex_inf_z3.py"
+LZ_PROPS = ["C04", "C11"]
+V("s-lz-min-generator", "silent", LZ_PROPS, LZ, "        v = min([len(s) for s in xi_i_set])\n", "        v = min(len(s) for s in xi_i_set)\n")
+V("s-lz-exits-swapped", "silent", LZ_PROPS, LZ, "        if f < v:\n            return False\n        if v < f:\n            return True\n", "        if v < f:\n            return True\n        if f < v:\n            return False\n")
+V("s-lz-not-result", "silent", LZ_PROPS, LZ, "                if result == False:\n                    beats_all = False\n", "                if not result:\n                    beats_all = False\n")
+V("s-lz-pop-order", "silent", LZ_PROPS, LZ, "                opt_v.pop()\n                opt_f.pop()\n                if result == False:", "                opt_f.pop()\n                opt_v.pop()\n                if result == False:")
+V("f-lz-strictness", "fire", LZ_PROPS, LZ, "        if v < f:\n            return True\n", "        if v <= f:\n            return True\n")
+V("f-lz-empty-f", "fire", LZ_PROPS, LZ, "            logger.debug(\"no verification mcs\")\n            return True\n", "            logger.debug(\"no verification mcs\")\n            return False\n")
+V("f-lz-tie-layer0", "fire", LZ_PROPS, LZ, "        if partition_index == 0:\n            return False\n        # the lexicographic order", "        if partition_index == 0:\n            return True\n        # the lexicographic order")
+V("f-lz-missing-pop", "fire", LZ_PROPS, LZ, "                opt_v.pop()\n                opt_f.pop()\n                if result == False:", "                opt_v.pop()\n                if result == False:")
+V("f-lz-f-side-uses-v-set", "fire", LZ_PROPS, LZ, "                [opt_f.add(c.make_A_then_not_B()) for c in xi_i_prime]\n", "                [opt_f.add(c.make_A_then_not_B()) for c in xi_i]\n")
+V("f-lz-filter-min", "fire", LZ_PROPS, LZ, "            for xi_i_prime in [s for s in xi_i_prime_set if len(s) == f]:\n", "            for xi_i_prime in [s for s in xi_i_prime_set if len(s) >= f]:\n")
+V("f-lz-quantifier", "fire", LZ_PROPS, LZ, "            if beats_all:\n                return True\n        return False\n", "            if not beats_all:\n                return False\n        return True\n")
+V("f-lz-query-sides", "fire", LZ_PROPS, LZ, "        opt_v.add(query.make_A_then_B())\n", "        opt_v.add(query.make_A_then_not_B())\n")
+V("f-lz-ext-f-not-hard", "fire", ["C07", "C11"], LZ, "                opt_f.add(c.make_not_A_or_B())\n", "                pass\n")
+
+# ---------------------------------------------------------------------------------- manager
+IM = "inference/inference_manager.py"
+V("s-im-row-local", "silent", ["C13", "C14"], IM, "            df.at[index, \"index\"] = results[key][0]\n            df.at[index, \"result\"] = results[key][1]\n",
+  "            row = results[key]\n            df.at[index, \"index\"] = row[0]\n            df.at[index, \"result\"] = row[1]\n")
+V("f-im-row-by-position", "fire", ["C13"], IM, "            df.at[index, \"result\"] = results[key][1]\n", "            df.at[index, \"result\"] = results[index][1]\n")
+V("f-im-row-by-text", "fire", ["C13"], IM, "            df.at[index, \"result\"] = results[key][1]\n", "            df.at[index, \"result\"] = results[str(query)][1]\n")
+V("f-im-timeout-column", "fire", ["C14"], IM, "            df.at[index, \"inference_timed_out\"] = results[key][2]\n", "            df.at[index, \"inference_timed_out\"] = results[key][1]\n")
+V("f-im-dispatch-lex", "fire", ["C04", "C11"], IM, "            inference_instance = LexInfZ3(epistemic_state)\n", "            inference_instance = SystemWZ3(epistemic_state)\n")
+V("f-im-dispatch-z", "fire", ["C02"], IM, "        inference_instance = SystemZ(epistemic_state)\n", "        inference_instance = PEntailment(epistemic_state)\n")
+V("f-im-dispatch-backend-test", "fire", ["C11", "C03"], IM, "        if epistemic_state[\"pmaxsat_solver\"] == \"z3\":\n            inference_instance = SystemWZ3(epistemic_state)\n", "        if epistemic_state[\"pmaxsat_solver\"] != \"z3\":\n            inference_instance = SystemWZ3(epistemic_state)\n")
+
 
 def main():
     hv = os.path.join(HERE, "harvested.json")
